@@ -37,6 +37,9 @@ pub struct SvcConfig {
     pub incoming_bucket_limit: Option<usize>,
     /// None: the crate's default (1 h); Some(None): permanent bans; Some(Some(d)): bans of duration d
     pub ban_duration: Option<Option<Duration>>,
+    /// hand the service pre-created sockets (ListenConfig::FromSockets, loopback, port 0) instead of
+    /// addresses; the IP mode must be derived from which sockets exist
+    pub from_sockets: bool,
 }
 
 impl Default for SvcConfig {
@@ -55,6 +58,7 @@ impl Default for SvcConfig {
             register_events: true,
             incoming_bucket_limit: None,
             ban_duration: None,
+            from_sockets: false,
         }
     }
 }
@@ -192,6 +196,28 @@ impl Svc {
                 }
             };
             (listen, b.build(&key).expect("local record"))
+        };
+        let listen = if cfg.from_sockets {
+            let v4 = match cfg.mode {
+                Mode::Ip4 | Mode::Dual => tokio::net::UdpSocket::bind((Ipv4Addr::LOCALHOST, 0)).await.ok().map(std::sync::Arc::new),
+                Mode::Ip6 => None,
+            };
+            let v6 = match cfg.mode {
+                Mode::Ip6 | Mode::Dual => tokio::net::UdpSocket::bind((Ipv6Addr::LOCALHOST, 0)).await.ok().map(std::sync::Arc::new),
+                Mode::Ip4 => None,
+            };
+            let complete = match cfg.mode {
+                Mode::Ip4 => v4.is_some(),
+                Mode::Ip6 => v6.is_some(),
+                Mode::Dual => v4.is_some() && v6.is_some(),
+            };
+            if complete {
+                ListenConfig::FromSockets { ipv4: v4, ipv6: v6 }
+            } else {
+                listen
+            }
+        } else {
+            listen
         };
         let mut cb = ConfigBuilder::new(listen);
         if cfg.ip_limit {
